@@ -284,6 +284,27 @@ def mc_writer(rep, tier):
     return res
 
 
+def writer_streams(rep):
+    """Writes of several MiB (one slice, 100 kB pieces, 1 MiB pieces) into sinks that accept everything / 64 KiB / 1 MiB per call or
+    fail at call 1, 2, 3, 5: one summary record per run, judged by WriterAbs!WStreamOk."""
+    exe = vlib.build_harness(True)
+    sp = os.path.join(TRACES, "%s_wstream.ndjson" % rep.prop)
+    pr = subprocess.run([exe, "wstream", "--out", sp], cwd=vlib.ROOT, stdout=subprocess.PIPE, stderr=subprocess.PIPE, text=True, timeout=1800)
+    if pr.returncode < 0 or pr.returncode in DIED:
+        rep.violation({"kind": "process-died", "exit": pr.returncode, "object": "wstream", "event": "abort", "op": "", "spec": "", "panic": False,
+                       "parser": ""}, {"spec": None, "how_to_replay": "vh wstream (release build)", "stderr_tail": pr.stderr[-400:]})
+        return
+    if pr.returncode != 0:
+        raise ToolError("vh wstream failed (exit %d): %s" % (pr.returncode, pr.stderr[-800:]))
+    res = validate_traces("%s_wstream" % rep.prop, "Trace_Writer", "Trace_Writer.cfg", [sp])
+    for rej in res["rejected"]:
+        first = json.loads(rej["first_unmatched"])
+        rep.violation({"kind": "writer-stream", "parser": "", "object": "writer", "event": "wstream", "op": "", "spec": "Trace_Writer",
+                       "panic": bool(first.get("panic"))},
+                      {"spec": "Trace_Writer", "how_to_replay": "vh wstream (release build)", "first_unmatched": first})
+    rep.cov["huge_writes"] = json.loads(pr.stdout.strip().splitlines()[-1])
+
+
 def check_C11(tier, seed):
     rep = Report("C11", tier, seed, "model_checking")
     mc_writer(rep, tier)
@@ -292,6 +313,7 @@ def check_C11(tier, seed):
         writer_histories(rep, tier, seed, "c11_", 12, 400)
     else:
         writer_histories(rep, tier, seed, "c11_", 14, 6000, ops=50)
+    writer_streams(rep)
     rep.cov["rule"] = ("model: exhaustive BFS of DeferredWriter (capacity 4, every fill/flush/direct-write path, every sink "
                        "answer) incl. refinement of WriterAbs; traces: random operation histories of the real DeferredWriter "
                        "(small capacities through the cfg-gated constructor, default 16 KiB capacity in one shard) over a "
